@@ -104,6 +104,9 @@ def run_case(ctx, k, rng):
         perm = rng.permutation(n)
         Ep = float(call(ctx, dgm[perm])[0])
         ctx.check("perm-invariant", abs(Ep - E) <= (1e-12 if exact else 1e-10) * (1 + math.log(n)), got=Ep, base=E)
+        fa, nm = forms.relayout(rng, dgm)
+        El = float(call(ctx, fa)[0])
+        ctx.check("another memory layout of the barcode gives the same value", El == E, got=El, base=E, layout=nm)
         if exact:
             t = float(rng.integers(-16, 17)) if rng.random() < 0.6 else float(rng.choice([1e6, -1e6, 2.0 ** 30, 1e9]))
             Et = float(call(ctx, dgm + t)[0])
